@@ -21,6 +21,8 @@ def cfg(**kw):
 def mk_page(rng, boxes, slant=0.0, with_lines=True):
     from pero_ocr.core.layout import PageLayout, RegionLayout, TextLine
     pl = PageLayout(id='p', page_size=(3000, 3000))
+    # line ids: unique on the page, numbered per region (the same ids in every region), or absent (TextLine's default)
+    id_scheme = rng.choice(['unique', 'unique', 'per-region', 'none'])
     for i, (x0, y0, x1, y1) in enumerate(boxes):
         poly = np.array([[x0, y0], [x1, y0], [x1, y1], [x0, y1]])
         if rng.random() < 0.3 and x1 > x0 + 4 and y1 > y0 + 4:   # L-shape / extra vertices, same bounding box
@@ -40,7 +42,8 @@ def mk_page(rng, boxes, slant=0.0, with_lines=True):
             for k in range(rng.randrange(0, 3)):
                 y = y0 + 5 + 10 * k
                 dy = slant * (x1 - x0)
-                reg.lines.append(TextLine(id='r%d-l%d' % (i, k), baseline=np.array([[x0, y], [x1, y + dy]], dtype=float),
+                lid = 'r%d-l%d' % (i, k) if id_scheme == 'unique' else ('l%d' % k if id_scheme == 'per-region' else None)
+                reg.lines.append(TextLine(id=lid, baseline=np.array([[x0, y], [x1, y + dy]], dtype=float),
                                           polygon=np.array([[x0, y - 4], [x1, y - 4 + dy], [x1, y + 2 + dy], [x0, y + 2]], dtype=float),
                                           heights=[4, 2], transcription='t%d.%d' % (i, k)))
         pl.regions.append(reg)
@@ -161,6 +164,7 @@ def run(ctx):
         page = mk_page(rng, boxes, slant=(rng.uniform(-0.2, 0.2) if slanted else 0.0))
         before = copy.deepcopy(page)
         inp['polygons'] = [np.asarray(r.polygon).tolist() for r in page.regions]
+        inp['line_ids'] = [[l.id for l in r.lines] for r in page.regions]
         pboxes = [[int(np.min(np.asarray(r.polygon)[:, 0])), int(np.min(np.asarray(r.polygon)[:, 1])),
                    int(np.max(np.asarray(r.polygon)[:, 0])), int(np.max(np.asarray(r.polygon)[:, 1]))] for r in page.regions]
         smart = SmartRegionSorter(cfg(FakeIntersectionParameter=num / den))
